@@ -141,10 +141,11 @@ Section Tokens.
     | KeyErr => KeyErr
     end.
 
-  Definition prosodic_string_tokens (m : omode) (toks : list token) : res (list Z) :=
+  (* [cldf] = keywords['cldf'] (default False) *)
+  Definition prosodic_string_tokens (cldf : bool) (m : omode) (toks : list token) : res (list Z) :=
     match toks with
     | [] => Ok []
-    | _ => match sonority false toks with
+    | _ => match sonority cldf toks with
            | Ok l => prosodic_string m l
            | e => e
            end
